@@ -520,7 +520,10 @@ def file_fingerprint(path):
     except OSError:
         return "missing"
     try:
-        return hashlib.sha1(ast.dump(ast.parse(src)).encode()).hexdigest()
+        import warnings
+        with warnings.catch_warnings():
+            warnings.simplefilter("ignore")
+            return hashlib.sha1(ast.dump(ast.parse(src)).encode()).hexdigest()
     except Exception:
         return "raw:" + hashlib.sha1(src).hexdigest()
 
